@@ -3,6 +3,8 @@
 package formatter
 
 import (
+	"strings"
+
 	"github.com/shopspring/decimal"
 
 	"github.com/juev/hledger-lsp/internal/ast"
@@ -23,6 +25,10 @@ func verifC04Number(maxI, maxF, maxPlaces int) {
 	nf := zzverif.Choice("nf", maxF+1)
 	I := zzverif.Digits("i", ni)
 	F := zzverif.Digits("f", nf)
+	// the ambiguous shape of DESIGN 4.3 (one mark, exactly three digits, non-zero integer part) is not a
+	// number of G: the project reads 9.820 as 9820 (now that a lossy format leaves the amount as written,
+	// the source spelling itself reaches the parser)
+	zzverif.Assume(!(nf == 3 && I != strings.Repeat("0", ni)))
 	src := I
 	if nf > 0 {
 		src += "." + F
